@@ -111,7 +111,7 @@ static scpi_result_t cb_control(scpi_t *c, scpi_ctrl_name_t ctrl, scpi_reg_val_t
         w->srq_vals.push_back(val);
         if (w->srq_observer) w->srq_observer(*w, val);
     }
-    return SCPI_RES_OK;
+    return w->cfg.control_err ? SCPI_RES_ERR : SCPI_RES_OK;
 }
 
 static scpi_result_t cb_reset(scpi_t *c) {
